@@ -287,6 +287,7 @@ var integer32 = []*instructionType{
 	}, {
 		name:         "slli",
 		opcode:       opcodeShiftImm(false, 5, 0b001, 0b0010011),
+		shamtBits:    5,
 		inputRegCnt:  1,
 		hasOutputReg: true,
 		effects: func(i instruction) []expr.Effect {
@@ -296,6 +297,7 @@ var integer32 = []*instructionType{
 	}, {
 		name:         "srli",
 		opcode:       opcodeShiftImm(false, 5, 0b101, 0b0010011),
+		shamtBits:    5,
 		inputRegCnt:  1,
 		hasOutputReg: true,
 		effects: func(i instruction) []expr.Effect {
@@ -305,6 +307,7 @@ var integer32 = []*instructionType{
 	}, {
 		name:         "srai",
 		opcode:       opcodeShiftImm(true, 5, 0b101, 0b0010011),
+		shamtBits:    5,
 		inputRegCnt:  1,
 		hasOutputReg: true,
 		effects: func(i instruction) []expr.Effect {
@@ -511,6 +514,7 @@ var integer32 = []*instructionType{
 		inputRegCnt:  0,
 		hasOutputReg: true,
 		immediate:    immTypeI,
+		hasUimm:      true,
 		instrType:    model.TypeCPUStateChange,
 		effects: func(i instruction) []expr.Effect {
 			key := csrKey(i)
@@ -525,6 +529,7 @@ var integer32 = []*instructionType{
 		inputRegCnt:  0,
 		hasOutputReg: true,
 		immediate:    immTypeI,
+		hasUimm:      true,
 		instrType:    model.TypeCPUStateChange,
 		effects: func(i instruction) []expr.Effect {
 			key := csrKey(i)
@@ -541,6 +546,7 @@ var integer32 = []*instructionType{
 		inputRegCnt:  0,
 		hasOutputReg: true,
 		immediate:    immTypeI,
+		hasUimm:      true,
 		instrType:    model.TypeCPUStateChange,
 		effects: func(i instruction) []expr.Effect {
 			key := csrKey(i)
